@@ -269,8 +269,8 @@ func init() {
 		Real: nodeReal, Stub: nodeStub,
 		Assumptions: []string{"declared lengths are either small or at least 2^48, so that the outcome never depends on how much memory this machine happens to have",
 			"a worker process that dies is re-run alone from the regenerated PRNG stream of that run to confirm and minimise the crash"},
-		FaultKinds: []string{"fragmentation", "delivery-delay", "hostile:random-bytes", "hostile:magic+random", "hostile:bad-checksum", "hostile:length-too-long", "hostile:length-too-short", "hostile:count-huge", "hostile:extmsg-length-absurd", "hostile:headers-bits", "hostile:tx-input-count-huge", "hostile:tx-script-length-beyond-payload", "hostile:truncated", "hostile:block-tx-count-huge", "hostile:command-garbage", "hostile:version-mangled", "hostile:inv-type-garbage", "hostile:flipped-byte"},
-		ProbeNames: []string{"stage:before-handshake", "stage:during-verification", "stage:ready", "run-returned", "second-connection-ok"},
+		FaultKinds:   []string{"fragmentation", "delivery-delay", "hostile:random-bytes", "hostile:magic+random", "hostile:bad-checksum", "hostile:length-too-long", "hostile:length-too-short", "hostile:count-huge", "hostile:extmsg-length-absurd", "hostile:headers-bits", "hostile:tx-input-count-huge", "hostile:tx-script-length-beyond-payload", "hostile:truncated", "hostile:block-tx-count-huge", "hostile:command-garbage", "hostile:version-mangled", "hostile:inv-type-garbage", "hostile:flipped-byte"},
+		ProbeNames:   []string{"stage:before-handshake", "stage:during-verification", "stage:ready", "run-returned", "second-connection-ok"},
 		Run:          runC15,
 		QuickSeconds: 20, ThoroughSeconds: 600, MinRuns: 300, BatchSize: 25, RunTimeoutSeconds: 180, DryScript: true,
 	})
